@@ -83,7 +83,29 @@ def sym_pairs(L: Logic, name: str):
     return VSet(lambda a, b: R(a, b), arity=2, kind="list", owned=False), [], Probe(name, "pairs", (R,))
 
 
-BUILDERS = {"graph": sym_graph, "nodeset": sym_nodeset, "node": sym_node, "digraph": sym_nx,
+def sym_seq(L: Logic, name: str):
+    M = z3.Function(f"{name}.mem", L.Node, L.B)
+    lt = z3.Function(f"{name}.lt", L.Node, L.Node, L.B)
+    wf = [
+        L.forall(2, lambda a, b: L.Implies(lt(a, b), L.And(M(a), M(b)))),
+        L.forall(1, lambda a: L.Not(lt(a, a))),
+        L.forall(3, lambda a, b, c: L.Implies(L.And(lt(a, b), lt(b, c)), lt(a, c))),
+        L.forall(2, lambda a, b: L.Implies(L.And(M(a), M(b)), L.Or(a == b, lt(a, b), lt(b, a)))),
+    ]
+    return VSeq(lambda x: M(x), lambda a, b: lt(a, b)), wf, Probe(name, "seq", (M, lt))
+
+
+def sym_bool(L: Logic, name: str):
+    c = z3.Const(f"{name}.b", L.B)
+    return VBool(c), [], Probe(name, "bool", (c,))
+
+
+def sym_optint(L: Logic, name: str):
+    """int | None with the int non-negative (sizes / limits)"""
+    raise OutOfSubset("optint inputs are expanded into variants by the contract")
+
+
+BUILDERS = {"seq": sym_seq, "bool": sym_bool, "graph": sym_graph, "nodeset": sym_nodeset, "node": sym_node, "digraph": sym_nx,
             "ugraph": lambda L, n: sym_nx(L, n, directed=False), "pairs": sym_pairs}
 
 
